@@ -12,7 +12,7 @@ for D in seeded/*/; do
   LINE="$ID:"
   RES="{"
   for P in $PID $ALSO; do
-    OUT=$(./vv check $P 2>&1); RC=$?
+    OUT=$(timeout 1800 ./vv check $P 2>&1); RC=$?
     V=$(echo "$OUT" | grep -c "^VIOLATION property=$P")
     NF=$(echo "$OUT" | grep "^VIOLATION" | grep -vc "no-failing-input-found")
     FIRST=$(echo "$OUT" | grep "failed obligation" | head -1 | sed 's/.*failed obligation: //' | cut -c1-90)
